@@ -15,6 +15,9 @@ import (
 type consumptions struct {
 	sync.Map
 	count int32
+	// l serialises cache-then-broadcast (publisher) with snapshot-then-register
+	// (a joining consumer), so that a joiner sees every packet exactly once.
+	l sync.Mutex
 }
 
 func (m *consumptions) SendToAll(p Pack, keyframe bool) {
